@@ -15,7 +15,18 @@ global size_of usize == 8;
 pub struct Gc<T> { p: core::marker::PhantomData<T> }
 impl<T> Clone for Gc<T> { #[verifier::external_body] fn clone(&self) -> (r: Self) ensures r == *self { Gc { p: core::marker::PhantomData } } }
 impl<T> Copy for Gc<T> {}
-pub struct ObjClosure { }
+impl<T> Gc<T> { pub uninterp spec fn obj(&self) -> T; }
+impl<T> std::ops::Deref for Gc<T> {
+    type Target = T;
+    #[verifier::external_body]
+    fn deref(&self) -> (r: &T) ensures *r == self.obj() { unimplemented!() }
+}
+pub struct Chunk { }
+pub struct ObjModule { }
+pub struct RefCell<T> { pub v: T }
+pub struct ObjFunction { pub chunk: Gc<Chunk> }
+// object.rs ObjClosure: the function it runs and the module whose globals it sees (upvalues: unit `upvalues`)
+pub struct ObjClosure { pub function: Gc<ObjFunction>, pub module: Gc<RefCell<ObjModule>> }
 // "address a lies inside the code of closure c's function" (chunk.code.as_ptr_range().contains(&a))
 pub uninterp spec fn in_code(c: Gc<ObjClosure>, a: usize) -> bool;
 pub struct CodeRange { pub ghost c: Gc<ObjClosure> }
@@ -140,6 +151,10 @@ impl ObjFiber {
     #[verifier::external_body]
     fn close_upvalues(&mut self, index: usize) ensures *final(self) == *old(self) { unimplemented!() }
     #[verifier::external_body]
+    fn current_frame(&self) -> (r: Option<&CallFrame>)
+        ensures self.frames@.len() > 0 ==> (r matches Some(f) && *f == self.frames@.last()), self.frames@.len() == 0 ==> r is None
+    { unimplemented!() }
+    #[verifier::external_body]
     fn current_frame_mut(&mut self) -> (r: Option<&mut CallFrame>)
         requires old(self).frames@.len() > 0
         ensures r matches Some(f) && *f == old(self).frames@.last() && final(self).frames@ == old(self).frames@.drop_last().push(*final(f))
@@ -151,9 +166,18 @@ impl ObjFiber {
 }
 
 // the VM as far as this unit is concerned: instruction pointer, "exception in flight" flag, content of the active fiber
-pub struct Vm { pub ip: usize, pub handling_exception: bool, pub fib: ObjFiber, pub ghost code: Seq<u8> }
+pub struct Vm { pub ip: usize, pub handling_exception: bool, pub fib: ObjFiber, pub ghost code: Seq<u8>,
+                pub active_chunk: Gc<Chunk>, pub active_module: Gc<RefCell<ObjModule>> }
 
 impl Vm {
+    // The interpreter caches the innermost frame of the active fiber: where to continue, whose code, whose globals.
+    pub open spec fn view_ok(&self) -> bool {
+        &&& self.fib.frames@.len() > 0
+        &&& self.ip == self.fib.frames@.last().ip
+        &&& self.active_chunk == self.fib.frames@.last().closure.obj().function.obj().chunk
+        &&& self.active_module == self.fib.frames@.last().closure.obj().module
+    }
+
     #[verifier::external_body]
     fn active_fiber(&self) -> (r: &ObjFiber) ensures *r == self.fib { unimplemented!() }
     #[verifier::external_body]
@@ -170,13 +194,13 @@ impl Vm {
             final(self).code == old(self).code,
             r as int == u16_of(old(self).code[old(self).ip as int], old(self).code[old(self).ip as int + 1]),
     { unimplemented!() }
-    // vm.rs load_frame: ip / active chunk / active module := those of the current frame
-    #[verifier::external_body]
-    fn load_frame(&mut self)
-        requires old(self).fib.frames@.len() > 0
-        ensures final(self).fib == old(self).fib, final(self).handling_exception == old(self).handling_exception,
-            final(self).ip == old(self).fib.frames@.last().ip,
-    { unimplemented!() }
+    // load_frame: ip / active chunk / active module := those of the current frame
+    //@fn file=yarel/src/vm.rs path=Vm::load_frame props=C08,C14,C09
+    //@  requires old(self).fib.frames@.len() > 0
+    //@  ensures final(self).fib == old(self).fib, final(self).handling_exception == old(self).handling_exception, final(self).code == old(self).code
+    //@  ensures final(self).ip == old(self).fib.frames@.last().ip
+    //@  ensures @cached_view_is_the_innermost_frames final(self).view_ok()
+    //@end
     #[verifier::external_body]
     fn new_error_from_value(&mut self, value: Value) -> Error
         ensures final(self).fib == old(self).fib, final(self).handling_exception == old(self).handling_exception, final(self).ip == old(self).ip
@@ -224,7 +248,7 @@ impl Vm {
     // changes. Otherwise: the innermost handler h is removed and only h; the value stack is what it was when h was
     // installed (the handling function's variables intact) plus the exception value; the call stack is cut back to
     // h's frame; execution continues at h's catch address.
-    //@fn file=yarel/src/vm.rs path=Vm::unwind_stack ret=r
+    //@fn file=yarel/src/vm.rs path=Vm::unwind_stack ret=r props=C08,C14,C17
     //@  requires old(self).fib.handlers_ok(), old(self).fib.stack.view.len() > 0
     //@  requires old(self).fib.exc_handlers@.len() > 0 ==> old(self).fib.exc_handlers@.last().init_stack_size < STACK_MAX
     //@  ensures old(self).fib.exc_handlers@.len() == 0 ==> r is Err && final(self).fib.stack == old(self).fib.stack && final(self).fib.frames == old(self).fib.frames && final(self).fib.exc_handlers@ == old(self).fib.exc_handlers@
@@ -239,6 +263,7 @@ impl Vm {
     //@  ensures old(self).fib.exc_handlers@.len() > 0 ==> final(self).ip == old(self).fib.exc_handlers@.last().catch_ip && final(self).fib.frames@.last().slot_base == old(self).fib.frames@[old(self).fib.exc_handlers@.last().frame_count - 1].slot_base
     //@  ensures old(self).fib.exc_handlers@.len() > 0 ==> final(self).handling_exception == (old(self).fib.exc_handlers@.last().finally_ip == old(self).fib.exc_handlers@.last().catch_ip)
     //@  ensures final(self).fib.handlers_ok()
+    //@  ensures @handler_runs_with_the_code_and_globals_of_its_own_frame old(self).fib.exc_handlers@.len() > 0 ==> final(self).view_ok()
     //@  ensures @caught_exception_leaves_no_failure_address (r is Ok && !final(self).handling_exception) ==> final(self).fib.error_ip is None
     //@end
 
